@@ -3,5 +3,6 @@ CONSTANTS
   Depth = 3
   WithIn = TRUE
 INVARIANTS
+  PushSafe
   PushSafeNoIn
 CHECK_DEADLOCK FALSE
